@@ -299,10 +299,17 @@ func VHC06Prefix() {
 	ops := append(append([]string{}, c06Ops...), "~", "!~", "is")
 	b := ops[vh.Choose("b", len(ops))]
 	x := c06PfxOperands[vh.Choose("x", len(c06PfxOperands))]
-	av := vh.FloatFrom("a", c06Domain)
-	bv := vh.FloatFrom("bv", c06Domain)
-	t := vh.Bool("t")
-	s := string([]byte{vh.ByteFrom("s", "07az ")})
+	// concrete operand values (they travel through regexp and number formatting); only the
+	// field the chosen operand reads is varied
+	av, bv, t, s := 2.0, []float64{0, 2}[vh.Choose("bv", 2)], true, "a"
+	switch x {
+	case "$.a", "$.o.k", "$.o.arr[1]":
+		av = []float64{0, -3, 2}[vh.Choose("a", 3)]
+	case "$.t":
+		t = vh.Choose("t", 2) == 1
+	case "$.s":
+		s = []string{"0", "7", "a", " "}[vh.Choose("s", 4)]
+	}
 	doc := map[string]any{"a": av, "b": bv, "t": t, "s": s, "o": map[string]any{"k": av, "arr": []any{bv, av}}}
 	y := "$.b"
 	if b == "is" {
@@ -323,6 +330,33 @@ func VHC06Prefix() {
 	c1, k1, _ := evalExpr(plain, doc)
 	c2, k2, _ := evalExpr(paren, doc)
 	vh.Reach("prefix form compared")
+	vh.Assert(k1 != ErrSyntax && k2 != ErrSyntax, "C06: both spellings parse: "+plain)
+	vh.Assert(sameOutcome(c1, k1, c2, k2), "C06: `"+plain+"` means `"+paren+"`")
+}
+
+var c06AllOps = []string{"*", "/", "%", "+", "-", "==", "!=", "<", "<=", ">", ">=", "~", "!~", "&&", "||"}
+
+// VHC06PairsText: every ordered pair of binary operators, the match operators ~ and !~
+// among them, over string and number operands: `x A y B z` evaluates exactly as the text
+// parenthesised by the grammar's precedence table (same outcome, kind and value).
+func VHC06PairsText() {
+	a := c06AllOps[vh.Choose("a", len(c06AllOps))]
+	b := c06AllOps[vh.Choose("b", len(c06AllOps))]
+	vals := []string{"'ab'", "'b'", "2"}
+	x := vals[vh.Choose("x", len(vals))]
+	y := vals[vh.Choose("y", len(vals))]
+	z := vals[vh.Choose("z", len(vals))]
+	doc := map[string]any{}
+	plain := x + " " + a + " " + y + " " + b + " " + z
+	var paren string
+	if c06Prec(a) >= c06Prec(b) {
+		paren = "(" + x + " " + a + " " + y + ") " + b + " " + z
+	} else {
+		paren = x + " " + a + " (" + y + " " + b + " " + z + ")"
+	}
+	c1, k1, _ := evalExpr(plain, doc)
+	c2, k2, _ := evalExpr(paren, doc)
+	vh.Reach("pair compared")
 	vh.Assert(k1 != ErrSyntax && k2 != ErrSyntax, "C06: both spellings parse: "+plain)
 	vh.Assert(sameOutcome(c1, k1, c2, k2), "C06: `"+plain+"` means `"+paren+"`")
 }
